@@ -1096,6 +1096,9 @@ class StepUpCounter(Logic):
         Constant(self, 'zero', 0, zero)
         
         if (inc is None):
+            # always increment
+            one = self.wire('one', 1)
+            Constant(self, 'one', 1, one)
             inc = one
         if (reset is None):
             reset = zero
